@@ -49,3 +49,67 @@ PROPS = {
                      "the debug-assertion behaviour was examined by reading only (the harness builds the library in release mode)"],
     ),
 }
+
+_RT_COMMON = dict(
+    engine="roundtrip",
+    gen=["GenDataTypeConv", "GenInventory"],
+    check_targets=["Check/CheckRoundtrip.vo"],
+    per_shard=500,
+    technique="Coq proof over conversion tables generated from src/ir/types.rs + hand-written parse model + in-Coq differential "
+              "correspondence on decoded forms of generated valid modules (wasmprinter / wasmparser / Validator as oracles)",
+    trusted_base=PARSE_TB + ["translator/src/datatype.rs (From<ValType> for DataType, From<&DataType> for wasm_encoder::ValType / wasmparser::ValType, storage types); "
+                             "validated on every case against the real conversions",
+                             "coq/Model/ValTypes.v: hand-written vocabulary of wasmparser / wasm-encoder value types",
+                             "wasmparser::Validator, wasmprinter 0.235 and wat 1.259 (input validity, output validity, decoded text of items)"],
+    modelled="Module::parse_internal (as for C03); From<ValType> for DataType, From<&DataType> for wasm_encoder::ValType, storage-type conversions (generated). "
+             "NOT modelled: Module::encode_internal's emission (compared differentially on decoded forms only)",
+    rule="valid core modules: a profile set is drawn (plain MVP 10 %, exactly one proposal 30 %, random mix 60 % of multi-value, reference types, bulk "
+         "memory, SIMD, tail calls, GC, exceptions with try_table / exnref, threads, memory64, multi-memory; never extended-const), a module is generated as "
+         "text (types incl. rec groups / sub types, imports of all kinds, memories incl. shared / 64-bit / second memory, tables with initialisers, tags, "
+         "globals over the const-expr forms incl. NaN payloads, 3-8 functions whose bodies mix a typed expression generator (i32 / i64 / f64, blocks, "
+         "loops, ifs, br_if, br_table, select, loads, stores) with per-proposal instruction snippets, exports, start, active / passive / declared element "
+         "segments in both encodings, active / passive data, every identifier named so that all twelve name maps are present) and assembled with wat; 30 % of "
+         "the binaries are decorated (extra custom sections anywhere, producers sections with 0-3 fields, the name section moved before the code / import "
+         "section or to the front, early name sections without function names / with imported function names only); every input is validated with exactly "
+         "the features of its profile set and redrawn otherwise (about 1.5 % redraws); 13 hand-written seeds corpus/roundtrip/*.wat (one or more per "
+         "proposal) first; parsed with the multi-memory flag iff the profile has multi-memory; non-trivial = valid input with at least two functions",
+)
+
+PROPS["C02"] = dict(
+    _RT_COMMON,
+    proof_targets=["Props/C02.vo"],
+    theorems=[("C02", "C02_valtype_faithful"), ("C02", "C02_valtype_class_exact"), ("C02", "C02_storage_faithful"), ("C02", "C02_valtype_refuted"),
+              ("C02", "C02_valtype_wp_faithful"), ("C02", "C02_checker_sound"), ("C02", "C02_failures_are_known"), ("C02", "C02_conv_table_validated")],
+    quick=dict(n=3000), thorough=dict(n=60000),
+    level_text="Coq proof over the conversion tables regenerated from src/ir/types.rs that ValType -> DataType -> wasm_encoder::ValType (and storage types) is "
+               "the identity on every reader-producible type exactly outside the known class D10, with exnref / nullexnref / contref / shared witnesses; Coq "
+               "proof that on an agreeing sampled case the decoded content of input and output is equal whenever the parse model predicts Ok and no converted "
+               "type is in D10, and that every failure lies in a known class. The emission half of Module::encode is not modelled: it is tied to the "
+               "property by differential evaluation inside Coq of decoded input vs decoded output (item texts per kind, twelve name maps, custom-section "
+               "list) on generated valid modules of every profile.",
+    level_note="Partial: false today (D10a; D09a-d, D09i-j make the parse panic on valid modules). D23 was not reproduced. Not proved: faithfulness of "
+               "encode_internal's section emission (sampled). Trusted: Coq kernel + vm_compute; the harness (WAT generator, decorations, summaries by "
+               "wasmprinter text with custom sections stripped, name-map decoding); wasmparser / wasmprinter / wat; that sampled agreement extends to unsampled inputs.",
+    design_ref="5/C02",
+    assumptions=["equality is checked on the decoded form: wasmprinter text of every item of the non-custom sections (custom sections stripped before printing), "
+                 "decoded name maps of all twelve kinds compared as sorted entry lists, ordered list of non-name custom sections",
+                 "empty name maps and the presence / absence of a name section are 'name-section layout' and not compared",
+                 "inputs are valid under exactly the features of their profile set; extended-const is excluded by the quantifier"],
+)
+PROPS["C01"] = dict(
+    _RT_COMMON,
+    proof_targets=["Props/C01.vo"],
+    theorems=[("C01", "C01_checker_sound"), ("C01", "C01_valid_roundtrip"), ("C01", "C01_parse_failures_known"), ("C01", "C01_valtype_faithful")],
+    quick=dict(n=3000), thorough=dict(n=60000),
+    level_text="Validity after the round trip is reduced to C02's content equality: Coq proof that on an agreeing sampled case with a valid input, parse "
+               "model Ok and equal decoded content the output was observed valid, hence (with C02) every agreeing case outside D09 / D10 satisfies C01; Coq "
+               "proof (C03) that the parse model panics only at known sites; value-type conversion theorem over generated tables. The oracle is "
+               "wasmparser's Validator with exactly the features of the module's profile set, on input and output, for generated valid modules of every profile.",
+    level_note="Partial: false today (D09a-d, D09i-j: parse panics on valid modules; D10a: exnref comes back non-nullable and the output is invalid). The "
+               "reduction 'validity depends only on decoded content and section order' is an assumption sampled on every case, not a theorem; no Gallina "
+               "model of the validator or of encode_internal. Trusted as for C02.",
+    design_ref="5/C01",
+    assumptions=["'valid' = accepted by wasmparser 0.235's Validator with exactly the features of the profile set the module was generated for",
+                 "multi-memory modules are parsed with enable_multi_memory = true, all others with false",
+                 "extended constant expressions are excluded by the quantifier (they make the parse panic: D09f)"],
+)
